@@ -21,7 +21,9 @@ BOUND = ("networks with <= 6(7) variables (exhaustive 1-variable, sampled 2-vari
          "processes with PYTHONHASHSEED in {0, 1, 2, 3, 5, 7, 4242, seeded random}; tie-shaped networks (two or three minimal source blocks with the same number of stable "
          "motifs whose variable names interleave alphabetically, e.g. A<->D, B<->C, E=A&B; switch / toggle / asymmetric modules; seeded name permutations) under build, "
          "block expansion with and without the motif-avoidance check, scc expansion and succession_control, in 12 processes (hash seeds 0..3, 5, 7..11, 4242, seeded); full dump (ids, spaces, flags, edges, motif lists in order, depths, candidates, seeds, sets, "
-         "key index) plus every call's return value (incl. interventions in order) compared for equality; one process repeats each item, one interleaves unrelated calls")
+         "key index) plus every call's return value (incl. interventions in order) compared for equality; one process repeats each item, one interleaves unrelated calls, "
+         "one first builds an unrelated network with the same variable names and wiring; input-plus-chain networks whose restriction removes most of the Petri net, "
+         "under skipping histories")
 RULE = "one evaluation = one batch of 12 (network, history) items run in 8 or 12 processes; non-trivial = the batch contains an item whose final diagram has >= 3 nodes"
 CASE_TIMEOUT = 120.0
 BATCH = 12
@@ -30,7 +32,7 @@ OPS = families.PLAIN_OPS + families.QUERY_OPS + families.SKIP_OPS + ["block", "c
 NOISE = {"bnet": families.HAND["doc_control"], "history": [["build"], ["control", {"A": 0, "B": 0}, "all", None, [], True, False], ["seeds", 1, False]]}
 
 
-HASHSEEDS = [(0, "plain"), (1, "twice"), (4242, "noise"), (None, "plain"), (2, "plain"), (3, "plain"), (5, "plain"), (7, "plain")]
+HASHSEEDS = [(0, "plain"), (1, "twice"), (4242, "noise"), (None, "plain"), (2, "plain"), (3, "plain"), (5, "plain"), (7, "similar")]
 MORE_HASHSEEDS = [(8, "plain"), (9, "plain"), (10, "plain"), (11, "plain")]
 
 
@@ -50,8 +52,29 @@ def tie_batches(seed, tier):
         yield {"items": batch, "hashseed": random.Random(f"{seed}-tie-last").randrange(1, 2 ** 32 - 1), "more_seeds": True}
 
 
+def chain_batches(seed, tier):
+    """shape added after the seeded-change review: an input S, a chain of copies of S and a few independent bistable pairs - fixing S removes
+    more than half of the Petri net; node ids are then assigned in the order in which clingo enumerates minimal trap spaces of the restricted
+    net (skip_to_minimal / skip_remaining / expand_minimal_spaces with skipping), which must not depend on the hash seed"""
+    rng = random.Random(f"{seed}-c19chain")
+    batch = []
+    for n_chain, n_pairs in [(10, 3), (8, 2), (6, 3), (12, 2), (9, 3), (7, 2)] + [(rng.randint(5, 12), rng.randint(2, 3)) for _ in range(6 if tier == "quick" else 40)]:
+        rules = ["S, S", "C0, S"] + [f"C{i}, C{i - 1}" for i in range(1, n_chain)]
+        for i in range(n_pairs):
+            rules += [f"P{i}, Q{i}", f"Q{i}, P{i}"]
+        bnet = families.norm("\n".join(rules))
+        for h in ([["succ", 0], ["skip", 1]], [["succ", 0], ["skip", 2], ["skip", 1]], [["bfs", None, 0, None], ["skip_remaining"]],
+                  [["succ", 0], ["min", 1, None, True]]):
+            batch.append({"net": f"chain{n_chain}_{n_pairs}", "bnet": bnet, "history": h})
+            if len(batch) == 6:
+                yield {"items": batch, "hashseed": rng.randrange(1, 2 ** 32 - 1), "more_seeds": True}
+                batch = []
+    if batch:
+        yield {"items": batch, "hashseed": rng.randrange(1, 2 ** 32 - 1), "more_seeds": True}
+
+
 def cases(seed, tier):
-    yield from families.interleave((tie_batches(seed, tier), 1), (general_batches(seed, tier), 3))
+    yield from families.interleave((chain_batches(seed, tier), 1), (tie_batches(seed, tier), 1), (general_batches(seed, tier), 3))
 
 
 def general_batches(seed, tier):
@@ -92,12 +115,19 @@ def run_item(item):
         return {"log": [f"EXCEPTION {type(e).__name__} at {lib[-1]}: {e}"[:300]], "dump": {"len": 0, "exception": type(e).__name__}}
 
 
+def similar_network(bnet: str) -> str:
+    """the same variables and the same regulators, every literal positive: an UNRELATED network that looks the same to anything keyed by names / wiring"""
+    return bnet.replace("!", "")
+
+
 def child_main():
     req = json.load(sys.stdin)
     out = []
     for item in req["items"]:
         if req["mode"] == "noise":
             run_item(NOISE)
+        if req["mode"] == "similar":
+            run_item({"bnet": similar_network(item["bnet"]), "history": [["build"]]})      # its own outcome (even an exception) is irrelevant here
         r = run_item(item)
         if req["mode"] == "twice":
             r2 = run_item(item)
@@ -137,7 +167,7 @@ def check_with_info(case):
             got = json.dumps({"log": res[k]["log"], "dump": res[k]["dump"]}, sort_keys=True)
             if got != ref:
                 which = "return values" if res[k]["log"] != base[k]["log"] else "diagram dump"
-                kind = "differs_after_unrelated_calls" if m == "noise" else "differs_across_processes"
+                kind = "differs_after_unrelated_calls" if m in ("noise", "similar") else "differs_across_processes"
                 out.append(fail(kind, "building the same network with the same configuration gives identical ids, spaces, edges, motifs, depths, seeds and interventions in another "
                                 "process, independently of the hash seed and of earlier unrelated calls", f"item {k} ({item['net']}), PYTHONHASHSEED 0 vs {h} ({m}): {which} differ; "
                                 f"history {item['history']}", observed=res[k]["log"], expected=base[k]["log"]))
